@@ -220,6 +220,9 @@ class RunEval:
             raise Undecided("concatenate")
         if isinstance(e.func, ast.Attribute):
             recv = self.ev(e.func.value) if not (isinstance(e.func.value, ast.Name) and e.func.value.id == "np") else None
+            if base == "append" and isinstance(recv, list) and len(args) == 1:
+                recv.append(args[0])
+                return None
             if base == "astype":
                 return recv
             if base == "fill" and isinstance(recv, Arr1):
@@ -278,6 +281,19 @@ class RunEval:
             elif isinstance(st, ast.Return):
                 self.ret = self.ev(st.value) if st.value is not None else None
                 return True
+            elif isinstance(st, ast.For) and not st.orelse:
+                # a loop over the (single) modelled run: one iteration, like the comprehension form
+                it = self.ev(st.iter)
+                if not (isinstance(it, list) and len(it) == 1):
+                    raise Undecided("loop over more than the modelled run")
+                names = [x.id for x in st.target.elts] if isinstance(st.target, ast.Tuple) else [st.target.id]
+                vals = it[0] if isinstance(st.target, ast.Tuple) else [it[0]]
+                for n_, v_ in zip(names, vals):
+                    self.env[n_] = v_
+                if self.block(st.body):
+                    return True
+            elif isinstance(st, (ast.Pass, ast.Assert)):
+                continue
             else:
                 raise Undecided(f"statement {type(st).__name__}")
         return False
@@ -420,10 +436,23 @@ def check(run):
         run.violation("N2", bh.where, "binvox_header does not fill dim / translate / scale from its shape / translate / scale arguments", key=key_of("C13-N2", "fill"))
     ex = ix.func("trimesh.exchange.binvox:export_binvox")
     pb = ix.func("trimesh.exchange.binvox:parse_binvox")
-    w8 = any(isinstance(c, ast.Call) and ast.unparse(c.func).endswith("run_length_data") and any(k.arg == "dtype" and ast.unparse(k.value) == "np.uint8" for k in c.keywords)
-             for c in ast.walk(ex.node))
-    r8 = any(isinstance(c, ast.Call) and ast.unparse(c.func) == "np.frombuffer" and any(k.arg == "dtype" and ast.unparse(k.value) == "np.uint8" for k in c.keywords)
-             for c in ast.walk(pb.node))
+    mod_b = ex.module
+
+    def dtype_of(call):
+        """the dtype argument with a module-level constant resolved (`_RLE_DTYPE = np.uint8`)"""
+        for k in call.keywords:
+            if k.arg == "dtype":
+                v = k.value
+                if isinstance(v, ast.Name) and v.id in mod_b.constants and len(mod_b.constants[v.id]) == 1:
+                    v = mod_b.constants[v.id][0].value
+                return ast.unparse(v).replace("numpy.", "np.")
+        return None
+
+    ONE_BYTE = ("np.uint8", "'u1'", "'uint8'", "'B'", "np.ubyte")
+    wd = [dtype_of(c) for c in ast.walk(ex.node) if isinstance(c, ast.Call) and ast.unparse(c.func).endswith("run_length_data")]
+    rd = [dtype_of(c) for c in ast.walk(pb.node) if isinstance(c, ast.Call) and ast.unparse(c.func) in ("np.frombuffer", "numpy.frombuffer", "np.fromstring")]
+    w8 = bool(wd) and all(d in ONE_BYTE for d in wd)
+    r8 = bool(rd) and all(d in ONE_BYTE for d in rd)
     ok = w8 and r8
     run.instance("N2", ex.where, f"exporter asks for uint8 run lengths: {w8}; parser reads uint8 pairs: {r8}", ok)
     if not ok:
